@@ -10,7 +10,7 @@ from ..pool import guarded, run_cases
 
 THEOREMS = ["C01_default_in_prose", "C01_default_announced_once", "C01_default_stripped", "C01_quote_idempotent", "C01_example",
             "C01_rest_scan_lossless", "C01_rest_scan_splits_at_tokens", "C01_rest_emit_canonical", "C01_rest_parse_canonical",
-            "C01_rest_roundtrip", "C01_rest_roundtrip_return_only", "C01_rest_roundtrip_no_types", "C01_rest_emit_indented_canonical", "C01_rest_roundtrip_indented", "C01_rest_example", "C01_rest_tokens_are_the_sources", "C01_no_announcer_no_default", "C01_default_text_roundtrip", "C01_text_without_full_stop_is_kept", "C01_default_text_examples", "C01_announcers_are_the_sources", "C01_rest_default_roundtrip", "C01_rest_default_example"]
+            "C01_rest_roundtrip", "C01_rest_roundtrip_return_only", "C01_rest_roundtrip_no_types", "C01_rest_emit_indented_canonical", "C01_rest_roundtrip_indented", "C01_rest_example", "C01_rest_tokens_are_the_sources", "C01_no_announcer_no_default", "C01_default_text_roundtrip", "C01_text_without_full_stop_is_kept", "C01_default_text_examples", "C01_announcers_are_the_sources", "C01_rest_default_roundtrip", "C01_rest_default_example", "C01_rest_text_is_detected_as_rest", "C01_style_tokens_are_the_sources", "C01_style_examples"]
 # no " of " / " or ": those make _set_name_and_type infer a type from the prose (parse_adhoc_doc_for_typ, C17's subject), outside Model/RestDoc.v
 REST_WORDS = ["the", "size", "within", "buffer", "in", "bytes", "name", "used", "for", "lookup", "how", "many", "items", "(optional)", "e.g.", "a-b",
               "x_y", "[units]", "100%", "fast;", "slow,", "path/to", "it's", '"quoted"', "param", "type", "return", "rtype", "3.5", "N/A", "é"]
@@ -382,6 +382,14 @@ def run(ctx):
     agg, items, corr, work = collect(ctx, 45 if ctx.quick else 1800, 400 if ctx.quick else 18000)
     for cls, det, ir in items:
         ctx.item(cls, {"stage": "render as a docstring and parse it back", "clause": cls, "input": T.jsonable(ir) if ir else None, "detail": det})
+    # style detection against Model/StyleDetect.v on token text of the three styles
+    STY = SCAN_ALPHABET + ["Args:", "Kwargs:", "Raises:", "Returns:", "Parameters\n----------", "Returns\n-------", "Parameters", "----------", "Returns", "args:", "Args", "\n"]
+    sty_texts = ["".join(ctx.rng.choice(STY) for _ in range(ctx.rng.randint(0, 8))) for _ in range(400 if ctx.quick else 10000)]
+    from cdd.shared.docstring_utils import derive_docstring_format
+    for t_, m_ in zip(sty_texts, call_many("derive_format", sty_texts)):
+        i_ = derive_docstring_format(t_).name
+        if i_ != m_:
+            corr.append({"stage": "derive_docstring_format", "input": t_, "impl": i_, "model": m_})
     cf_bad = edtie.casefold_facts()
     if cf_bad:
         corr.insert(0, {"stage": "str.casefold facts assumed by Model/ExtractDefault.v:fold_char", "code_points": cf_bad[:10]})
